@@ -157,5 +157,21 @@ func TestC17(t *testing.T) {
 			run.Sample(map[string]any{"config": cfg.String(), "history": stepsString(h)})
 		}
 	})
+	// histories in which the filter's Broker is set or cleared between events: whether a group is sent or dropped
+	// is decided by the Broker configured when it expires / when FlushAll or Close runs
+	r := run.Rand()
+	nt := run.N(1500, 60000)
+	for i := 0; i < nt && !run.Stop(); i++ {
+		cr := r.Fork()
+		cfg := randConfig(cr)
+		h := genRandomHistory(cr, cr.Range(5, 60))
+		for k := cr.Range(1, 4); k > 0; k-- {
+			at := cr.Intn(len(h) + 1)
+			h = append(h[:at], append([]gstep{{Kind: rt.Pick(cr, []string{"broker-on", "broker-off"})}}, h[at:]...)...)
+		}
+		run.Progress("C17 (broker toggled) %s | %s", cfg, stepsString(h))
+		checkC17(run, cfg, h, len(h) <= 30)
+		run.Eval(fmt.Sprintf("t|%s|%s", cfg, stepsString(h)))
+	}
 	c17Concurrent(run)
 }
